@@ -241,6 +241,7 @@ pub mod fs {
     pub static mut WRITE_CALLS: crate::verif_models::Tg<usize> = crate::verif_models::Tg { v: 0, tag: 0x5eedc0de0000000e };
     pub static mut ACCEPTED: crate::verif_models::Tg<[usize; NFILES]> = crate::verif_models::Tg { v: [0; NFILES], tag: 0x5eedc0de0000000f };
     pub static mut WLOG: crate::verif_models::Tg<[[u8; LOGCAP]; NFILES]> = crate::verif_models::Tg { v: [[0; LOGCAP]; NFILES], tag: 0x5eedc0de00000010 };
+    pub static mut LOG_CONTENT: crate::verif_models::Tg<bool> = crate::verif_models::Tg { v: false, tag: 0x5eedc0de0000f001 };
     pub static mut FLUSHES: crate::verif_models::Tg<[usize; NFILES]> = crate::verif_models::Tg { v: [0; NFILES], tag: 0x5eedc0de00000011 };
 
     pub static mut RENAMES: crate::verif_models::Tg<usize> = crate::verif_models::Tg { v: 0, tag: 0x5eedc0de00000012 };
@@ -313,11 +314,15 @@ pub mod fs {
                     n = 1;
                 }
                 let fd = self.fd;
-                let mut i = 0;
-                while i < n {
-                    let at = ACCEPTED.v[fd] + i;
-                    if at < LOGCAP { WLOG.v[fd][at] = buf[i]; }
-                    i += 1;
+                // content is only logged on request: with a symbolic fault schedule the write position
+                // is symbolic and the log becomes a symbolically indexed array (out of memory)
+                if LOG_CONTENT.v {
+                    let mut i = 0;
+                    while i < n {
+                        let at = ACCEPTED.v[fd] + i;
+                        if at < LOGCAP { WLOG.v[fd][at] = buf[i]; }
+                        i += 1;
+                    }
                 }
                 ACCEPTED.v[fd] += n;
                 Ok(n)
